@@ -192,6 +192,7 @@ def regen_constants(ctx):
     if r.returncode != 0 or "Definition" not in r.stdout:
         raise CheckError("constants dumper failed: rc=%s %s" % (r.returncode, (r.stderr or "")[-500:]))
     gen = os.path.join(COQ, "Gen", "Generated.v")
+    os.makedirs(os.path.dirname(gen), exist_ok=True)       # (the directory holds only generated files, so a git clone does not have it)
     with Lock():
         old = open(gen).read() if os.path.exists(gen) else None
         if old != r.stdout:
